@@ -609,6 +609,8 @@ structure Cfg where
   /-- `metricIndexDatabase.Flush` returns at once when one of its steps fails (`if err := step(); err != nil
   { return err }` around every step, lindb) — otherwise the remaining steps still run (e.g. `errors.Join`) -/
   indexFlushAborts : Bool := true
+  /-- the LRU bucket cache of `indexKVStore` releases a bucket (its tries go back to the pool) when it evicts / purges it -/
+  kvCacheReleasesOnEvict : Bool := false
   deriving DecidableEq, Repr
 
 structure Node where
@@ -786,6 +788,20 @@ def bucketCacheRace (c : Cfg) (nd : Node) (nb nsName x : Nat) : Node × GenOut :
         let i := nd1.seqMem.metric
         (afterAlloc c { nd1 with metric := nd1.metric.insert nsID x i, seqMem := { nd1.seqMem with metric := i + 1 } }, .id i)
   | _, _ => nd1.genMetric c nb nsName x
+
+/-- witness for a cached bucket that is released under a lock-free reader (`GenTagValueID`; bucket = tag key id).
+The reader has missed in memory and holds the bucket of `tk` (from the LRU cache), it is stopped before
+`bucket.GetValue`; a flush purges the cache — with an eviction callback that calls `TrieBucket.Release` the
+bucket's tries go back to `trie`'s pool; another lookup loads the bucket of `tkOther`, which takes the same trie
+object out of the pool and unmarshals ITS content into it; the reader continues and answers from the bucket of
+`tkOther` in the current snapshot (when the value is not there: not found → `createValue`, whose locked re-check
+finds the right id). `nd` is the state after the flush. Without the callback the reader's bucket stays what it was. -/
+def bucketReleaseRace (c : Cfg) (nd : Node) (tk v tkOther : Nat) : Node × GenOut :=
+  if c.kvCacheReleasesOnEvict then
+    match nd.tagValue.snap tkOther v with
+    | some i => (nd, .id i)
+    | none => nd.genTagValueID c tk v
+  else nd.genTagValueID c tk v
 
 /-- witness schedule reader ‖ writer ‖ flush on a schema that is persisted and not in memory:
 a reader's `GetSchema(m)` has read the kv family and is stopped before `cache.Add`; a writer creates
